@@ -316,9 +316,12 @@ PROPS = {
         facts=True,
         families=[dict(name="fault", args=["-specs", "40,41,43,44,45,46,47"], timeout=2400)],
         level_text="Theorems C04_fail_is_cut, C04_entry_never_missing, C04_retry (from any state a failing call can leave, "
-                   "the retry returns exactly the undisturbed result), C04_retry_flat_directory, C04_rerun_from_cut, "
-                   "C04_norollback_refuted over the cut semantics with the repaired rollback. proof, partial: nested "
-                   "directories and the lock release are covered by the correspondence runs. Tied to the code by making "
+                   "the retry returns exactly the undisturbed result), C04_retry_flat_directory, C04_retry_nested / "
+                   "C04_retry_nested_inv (directories of any depth), C04_retry_from_restored_cut / C04_retry_from_cut "
+                   "(from EVERY cut of a nested commit, with the moved-away entries put back, the re-run returns the "
+                   "undisturbed node, record and objects), C04_rerun_from_cut, C04_norollback_refuted over the cut "
+                   "semantics with the repaired rollback. proof, partial: atomic system calls without partial effect; the "
+                   "lock release is covered by the correspondence runs and C12. Tied to the code by making "
                    "EVERY mutating system call of 10 commit scenarios fail in turn (EIO/ENOSPC/EACCES, ptrace) and by "
                    "un-committable entries (foreign link, FIFO, dangling cache link) at every position of a tree; "
                    "then the cause is removed and the commit retried: no loss, unlocked, non-zero exit, stage files "
